@@ -49,3 +49,211 @@ Print Assumptions C11_source_unchanged.
 Example C11_sample_too_large :
   snd (step (run [ONew 2] w0) (OSample 0 3%Z [])) = Err ValueError.
 Proof. vm_compute. reflexivity. Qed.
+
+(* ====================================================================================================
+   The COLUMN variants: ops.shuffle(col), ops.random_sample(col, k), ops.shuffle_horiz(cols... | dm).
+   L0: Spec/ShuffleCol.v (hand-written, positional); L1: Model/ShuffleCol.v (operations.py on the object graph, guards
+   and decisions regenerated into Gen/KShuffle.v, Gen/KOpsMisc.v); proofs: Proofs/ShuffleColFacts.v,
+   Proofs/ShuffleColRefine.v.  The permutation(s) / the choice made by `random` are arguments.
+   ==================================================================================================== *)
+From DM Require Import Spec.ShuffleCol Model.ShuffleColAbs Gen.KOpsMisc Gen.KShuffle Model.ShuffleCol
+  Proofs.ShuffleColFacts Proofs.ShuffleColRefine.
+
+(* ---------- ops.shuffle(col) ---------- *)
+(* the values are rearranged by the permutation (all values, each once) and the result is POSITION-ALIGNED with the
+   DataMatrix: it carries the row ids of its source, in their order *)
+Theorem C11_col_shuffle_rearranges : forall perm c c',
+  shuffle_col perm c = Ok c' ->
+  Permutation (c_cells c) (c_cells c') /\ c_ids c' = c_ids c /\ c_kind c' = c_kind c
+  /\ take_pos perm (c_cells c) = Some (c_cells c').
+Proof. exact shuffle_col_spec. Qed.
+Print Assumptions C11_col_shuffle_rearranges.
+
+(* every permutation of the row range is a shuffle (the premise of the theorem above is inhabited for all of them) *)
+Theorem C11_col_shuffle_total : forall perm c,
+  is_perm_of_range perm (List.length (c_cells c)) = true -> exists c', shuffle_col perm c = Ok c'.
+Proof. exact shuffle_col_total. Qed.
+Print Assumptions C11_col_shuffle_total.
+
+(* used as a selection key the shuffled column selects the rows at the positions where IT holds the value *)
+Theorem C11_col_shuffle_as_key : forall perm t name c c' f,
+  twf t -> col_of t name = Some c -> shuffle_col perm c = Ok c' ->
+  select_by f c' t = take (positions_where f (c_cells c') 0) t.
+Proof. exact shuffle_col_as_key. Qed.
+Print Assumptions C11_col_shuffle_as_key.
+
+(* assigned back (dm[name] = column) value j goes to row j; nothing else changes; another length is refused *)
+Theorem C11_col_assign_back : forall t name c t',
+  twf t -> assign_col t name c = Ok t' ->
+  slot_of t' name = Some {| skind := c_kind c; scells := c_cells c |}
+  /\ ids t' = ids t /\ fam t' = fam t
+  /\ (forall n, n <> name -> slot_of t' n = slot_of t n)
+  /\ List.length (c_cells c) = nrows t.
+Proof. exact assign_col_spec. Qed.
+Print Assumptions C11_col_assign_back.
+
+(* ---------- ops.random_sample(col, k) ---------- *)
+(* k distinct positions; every value comes WITH ITS row id; distinct rows when the source ids are distinct *)
+Theorem C11_col_sample : forall k choice c c',
+  List.length (c_ids c) = List.length (c_cells c) ->
+  sample_col k choice c = Ok c' ->
+  (0 <= k <= Z.of_nat (List.length (c_cells c)))%Z
+  /\ List.length (c_cells c') = Z.to_nat k /\ NoDup choice
+  /\ take_pos choice (combine (c_ids c) (c_cells c)) = Some (combine (c_ids c') (c_cells c'))
+  /\ List.length (c_ids c') = List.length (c_cells c')
+  /\ c_kind c' = c_kind c
+  /\ (NoDup (c_ids c) -> NoDup (c_ids c')).
+Proof. exact sample_col_spec. Qed.
+Print Assumptions C11_col_sample.
+
+Theorem C11_col_sample_pairs_of_source : forall k choice c c' r v,
+  List.length (c_ids c) = List.length (c_cells c) -> sample_col k choice c = Ok c' ->
+  In (r, v) (combine (c_ids c') (c_cells c')) -> In (r, v) (combine (c_ids c) (c_cells c)).
+Proof. exact sample_col_pairs. Qed.
+Print Assumptions C11_col_sample_pairs_of_source.
+
+(* ValueError exactly when k is out of range, whatever `random` would have chosen *)
+Theorem C11_col_sample_valueerror_iff : forall k choice c,
+  sample_col k choice c = Raise ValueError <-> (k < 0)%Z \/ (Z.of_nat (List.length (c_cells c)) < k)%Z.
+Proof. exact sample_col_error. Qed.
+Print Assumptions C11_col_sample_valueerror_iff.
+
+(* ---------- ops.shuffle_horiz ---------- *)
+(* one row: the receiving columns coerce a rearrangement of the row's cells ... *)
+Theorem C11_horiz_row : forall kinds perm row row',
+  hrow kinds perm row = Ok row' ->
+  exists moved, Permutation row moved /\ take_pos perm row = Some moved /\ coerce_row kinds moved = Ok row'.
+Proof. exact hrow_spec. Qed.
+Print Assumptions C11_horiz_row.
+
+(* ... and between columns of one type (cells in normal form, as inv_b guarantees) nothing is coerced: the multiset
+   of the row's cells is preserved *)
+Theorem C11_horiz_row_same_kind : forall k perm row row',
+  forallb (cell_ok k) row = true ->
+  hrow (repeat k (List.length row)) perm row = Ok row' -> Permutation row row'.
+Proof. exact hrow_perm. Qed.
+Print Assumptions C11_horiz_row_same_kind.
+
+(* the table: same row ids in the same order, same family, same names, a well-formed table of its own; every column
+   that was not chosen keeps its cells; a chosen column keeps its type; every row is rearranged by its own
+   permutation among the chosen columns (type coercion of the receiving column applies) *)
+Theorem C11_horiz_table : forall t args perms t',
+  twf t -> NoDup (map fst (names t)) ->
+  shuffle_horiz t args perms = Ok t' ->
+  exists ns, chosen_names t args = Ok ns /\
+  let order := chosen_order t ns in
+  ids t' = ids t /\ fam t' = fam t /\ map fst (names t') = map fst (names t) /\ twf t'
+  /\ (forall n, ~ In n order -> slot_of t' n = slot_of t n)
+  /\ (forall n s, In n order -> slot_of t n = Some s -> exists s', slot_of t' n = Some s' /\ skind s' = skind s)
+  /\ (forall i, (i < nrows t)%nat ->
+        exists p, nth_error perms i = Some p
+                  /\ hrow (map (fun n => match slot_of t n with Some s => skind s | None => KMixed end) order) p
+                          (trow t order i) = Ok (trow t' order i)).
+Proof. exact shuffle_horiz_spec. Qed.
+Print Assumptions C11_horiz_table.
+
+(* restricted to chosen columns of one type (stated for that case only: across types the receiving column coerces,
+   e.g. text handed to a FloatColumn becomes NaN, so the multiset is not preserved): every row keeps the multiset
+   of its cells in the chosen columns *)
+Theorem C11_horiz_rows_permuted : forall t args perms t' ns k,
+  twf t -> NoDup (map fst (names t)) ->
+  shuffle_horiz t args perms = Ok t' -> chosen_names t args = Ok ns -> same_kind_ok t ns k = true ->
+  forall i, (i < nrows t)%nat -> Permutation (trow t (chosen_order t ns) i) (trow t' (chosen_order t ns) i).
+Proof. exact shuffle_horiz_rows_permuted. Qed.
+Print Assumptions C11_horiz_rows_permuted.
+
+(* the source (and every other table) is what it was; the result is a new member *)
+Theorem C11_horiz_source_unchanged : forall w ti args perms j,
+  (j < List.length (pool w))%nat -> get (fst (xstep_horiz w ti args perms)) j = get w j.
+Proof. exact xstep_horiz_frame. Qed.
+Print Assumptions C11_horiz_source_unchanged.
+
+(* ---------- L1 = L0 under inv_b ---------- *)
+(* the by-ID fetch (dict cache of the Index for MixedColumns, argsort + searchsorted for numeric columns) in the order
+   of the ids found at positions ps is the positional take of ps *)
+Theorem C11_l1_fetch_by_id_is_positional : forall t name c key ps,
+  inv_b t = true -> lcol_of t name = Some c -> take_pos ps (ia (l_rowid t)) = Some (ia key) ->
+  exists col cs, getrowidkey c key = Some col /\ take_pos ps (lc_cells c) = Some cs
+                 /\ lc_kind col = lc_kind c /\ lc_cells col = cs /\ ia (lc_rowid col) = ia key.
+Proof. exact fetch_by_id_is_positional. Qed.
+Print Assumptions C11_l1_fetch_by_id_is_positional.
+
+(* Index(col._rowid); random.shuffle; _getrowidkey; col._rowid = obj._rowid  computes the L0 shuffle of the
+   position-aligned column the object denotes (results and refusals alike) *)
+Theorem C11_l1_col_shuffle_refines : forall t name c perm,
+  inv_b t = true -> lcol_of t name = Some c ->
+  col_of (abs t) name = Some (abs_col c)
+  /\ map_res abs_col (l_shuffle_col c perm) = shuffle_col perm (abs_col c).
+Proof. exact l_shuffle_col_refines_t. Qed.
+Print Assumptions C11_l1_col_shuffle_refines.
+
+Theorem C11_l1_col_sample_refines : forall t name c k choice,
+  inv_b t = true -> lcol_of t name = Some c ->
+  col_of (abs t) name = Some (abs_col c)
+  /\ map_res abs_col (l_sample_col c k choice) = sample_col k choice (abs_col c).
+Proof. exact l_sample_col_refines_t. Qed.
+Print Assumptions C11_l1_col_sample_refines.
+
+(* the argument check chain, dm[:], keep_only on a copy of the copy, the per-row shuffle written back by column
+   position through the type check of the receiving column, and the re-attachment compute the L0 shuffle_horiz:
+   the same table or the same exception class, for all argument lists and all permutations *)
+Theorem C11_l1_horiz_refines : forall t args perms,
+  inv_b t = true -> map_res abs (l_shuffle_horiz t args perms) = shuffle_horiz (abs t) args perms.
+Proof. exact l_shuffle_horiz_refines. Qed.
+Print Assumptions C11_l1_horiz_refines.
+
+Theorem C11_l1_horiz_result_ordinary : forall t args perms r,
+  inv_b t = true -> l_shuffle_horiz t args perms = Ok r -> twf (abs r).
+Proof. exact l_shuffle_horiz_wf. Qed.
+Print Assumptions C11_l1_horiz_result_ordinary.
+
+(* ---------- the premises are inhabited ---------- *)
+Definition c11_ex_col (k : kind) (cells : list val) : lcol :=
+  {| lc_kind := k; lc_rowid := {| ia := [4; 0; 2]%N; imeta := None; imax := None |}; lc_cells := cells;
+     lc_owner := true; lc_tc := true |}.
+(* a table reached by a selection / shuffle: row ids 4, 0, 2 in that order, a populated position cache *)
+Definition c11_ex_table : ltable :=
+  {| l_fam := 0; l_rowid := {| ia := [4; 0; 2]%N; imeta := Some [(4%N, 0%nat); (0%N, 1%nat); (2%N, 2%nat)]; imax := Some 4%Z |};
+     l_names := [("a"%string, 0%nat); ("b"%string, 1%nat); ("f"%string, 2%nat)];
+     l_cols := [c11_ex_col KMixed [VStr "x"; VInt 1; VNone]; c11_ex_col KMixed [VStr "y"; VStr "z"; VInt 7];
+                c11_ex_col KFloat [VFlt (FZero false); VFlt FNan; VFlt (FInf true)]];
+     l_sorted := true; l_dflt := KMixed |}.
+
+Example C11_ex_inv : inv_b c11_ex_table = true.
+Proof. vm_compute. reflexivity. Qed.
+Example C11_ex_same_kind : same_kind_ok (abs c11_ex_table) ["a"; "b"]%string KMixed = true.
+Proof. vm_compute. reflexivity. Qed.
+(* shuffle(dm.a) by the permutation [2; 0; 1]: the values move, the row ids stay the table's *)
+Example C11_ex_col_shuffle :
+  map_res abs_col (l_shuffle_col (c11_ex_col KMixed [VStr "x"; VInt 1; VNone]) [2; 0; 1]%nat)
+  = Ok {| c_ids := [4; 0; 2]%N; c_kind := KMixed; c_cells := [VNone; VStr "x"; VInt 1] |}.
+Proof. vm_compute. reflexivity. Qed.
+(* random_sample(dm.a, 2) choosing positions 2 and 0: the values with THEIR row ids *)
+Example C11_ex_col_sample :
+  map_res abs_col (l_sample_col (c11_ex_col KMixed [VStr "x"; VInt 1; VNone]) 2 [2; 0]%nat)
+  = Ok {| c_ids := [2; 4]%N; c_kind := KMixed; c_cells := [VNone; VStr "x"] |}.
+Proof. vm_compute. reflexivity. Qed.
+Example C11_ex_col_sample_too_large :
+  l_sample_col (c11_ex_col KMixed [VStr "x"; VInt 1; VNone]) 4 [] = Raise ValueError.
+Proof. vm_compute. reflexivity. Qed.
+(* shuffle_horiz(dm.a, dm.b) with the row permutations swap / keep / swap *)
+Example C11_ex_horiz :
+  match shuffle_horiz (abs c11_ex_table) [HCol "b"; HCol "a"]%string [[1; 0]; [0; 1]; [1; 0]]%nat with
+  | Ok t' => view t' = [("a"%string, KMixed, [VStr "y"; VInt 1; VInt 7]); ("b"%string, KMixed, [VStr "x"; VStr "z"; VNone]);
+                        ("f"%string, KFloat, [VFlt (FZero false); VFlt FNan; VFlt (FInf true)])]
+  | Raise _ => False
+  end.
+Proof. vm_compute. reflexivity. Qed.
+(* text handed to a FloatColumn becomes NaN (the receiving column coerces) and a column of another DataMatrix, or no
+   column at all, is refused *)
+Example C11_ex_horiz_coerces :
+  match shuffle_horiz (abs c11_ex_table) [HTable] [[0; 1; 2]; [2; 1; 0]; [0; 1; 2]]%nat with
+  | Ok t' => slot_of t' "f"%string = Some {| skind := KFloat; scells := [VFlt (FZero false); VFlt (round53 1); VFlt (FInf true)] |}
+  | Raise _ => False
+  end.
+Proof. vm_compute. reflexivity. Qed.
+Example C11_ex_horiz_refused :
+  shuffle_horiz (abs c11_ex_table) [HCol "a"; HForeign]%string [] = Raise ValueError
+  /\ shuffle_horiz (abs c11_ex_table) [] [] = Raise ValueError
+  /\ l_shuffle_horiz c11_ex_table [HTable; HCol "a"]%string [] = Raise ValueError.
+Proof. vm_compute. repeat split. Qed.
